@@ -414,8 +414,12 @@ def gen_constraints(rng, col, rich=True):
                 av = rng.sample(STRINGS, 3)
             out[kind] = {'value': av}
         elif kind == 'rex':
+            # (expressions are used one by one: groups, back-references, inline flags and alternations of one
+            # expression must not interact with those of another)
             out[kind] = {'value': rng.choice([[r'^[a-z]+$'], [r'^\d+$', r'^[a-z]*$'], [r'^.*$'], [r'^.+$'],
-                                              [r'^a'], [r'^[A-Za-z ]+$', r'^$'], [r'^\S+$']])}
+                                              [r'^a'], [r'^[A-Za-z ]+$', r'^$'], [r'^\S+$'],
+                                              [r'^(\d+)$', r'^([a-z])\1$'], [r'^(x)?y$', r'^(a)(b)?\1*$', r'^(.)\1$'],
+                                              [r'^a|b$', r'^zz$'], [r'^(?P<n>\d)\d$', r'^(?P<n>[a-z])(?P=n)$'], []])}
     if t == 'date' and ('min' in out or 'max' in out):
         out['type'] = {'value': 'date'}     # date bounds are only re-parsed when the type says date
     if t != 'date' and out.get('type', {}).get('value') == 'date' and \
